@@ -6,7 +6,10 @@ use crate::base_packet::{
     MCTPMessageBody, MCTPMessageBodyHeader, MCTPTransportHeader, MessageType,
 };
 use crate::control_packet::CommandCode;
-use crate::smbus_proto::{HDR_VERSION, MCTP_SMBUS_COMMAND_CODE, MCTPSMBusHeader, MCTPSMBusPacket};
+use crate::smbus_proto::{
+    HDR_VERSION, MCTP_SMBUS_COMMAND_CODE, MCTP_SMBUS_MAX_BODY_LEN, MCTPSMBusHeader,
+    MCTPSMBusPacket,
+};
 
 /// The standard trait for all MCTP headers
 pub(crate) trait MCTPHeader {
@@ -143,6 +146,10 @@ pub trait SMBusMCTPRequestResponse {
 
         let body = MCTPMessageBody::new(&header, *message_header, message_data, None);
 
+        if body.len() > MCTP_SMBUS_MAX_BODY_LEN {
+            return Err(());
+        }
+
         let packet = MCTPSMBusPacket::new(&mut smbus_header, &base_header, &body);
 
         Ok(packet.to_raw_bytes(buf))
@@ -163,6 +170,10 @@ pub trait SMBusMCTPRequestResponse {
             MCTPMessageBodyHeader::new(false, MessageType::VendorDefinedPCI);
 
         let body = MCTPMessageBody::new(&header, *message_header, message_data, None);
+
+        if body.len() > MCTP_SMBUS_MAX_BODY_LEN {
+            return Err(());
+        }
 
         let packet = MCTPSMBusPacket::new(&mut smbus_header, &base_header, &body);
 
@@ -186,6 +197,10 @@ pub trait SMBusMCTPRequestResponse {
 
         let body = MCTPMessageBody::new(&header, *message_header, message_data, None);
 
+        if body.len() > MCTP_SMBUS_MAX_BODY_LEN {
+            return Err(());
+        }
+
         let packet = MCTPSMBusPacket::new(&mut smbus_header, &base_header, &body);
 
         Ok(packet.to_raw_bytes(buf))
@@ -206,6 +221,10 @@ pub trait SMBusMCTPRequestResponse {
             MCTPMessageBodyHeader::new(false, MessageType::VendorDefinedIANA);
 
         let body = MCTPMessageBody::new(&header, *message_header, message_data, None);
+
+        if body.len() > MCTP_SMBUS_MAX_BODY_LEN {
+            return Err(());
+        }
 
         let packet = MCTPSMBusPacket::new(&mut smbus_header, &base_header, &body);
 
